@@ -48,9 +48,12 @@ class Runner:
     def __init__(self, ctx):
         self.ctx = ctx
 
-    def roundtrip(self, r, v, kw, cls):
+    def roundtrip(self, r, v, kw, cls, domain_v=None):
+        """domain_v: the value whose membership in the symmetric domain decides (v may additionally carry stale values in
+        members that build derives by itself and therefore ignores)"""
         ctx = self.ctx
         ctx.ev()
+        self.canon = None
         mb = model_build(r, v, kw)
         case = {"recipe": r, "kw": kw, "value": tag(v), "cls": cls}
         try:
@@ -65,7 +68,7 @@ class Runner:
             ctx.count("value_outside_domain(model rejects)")
             return False
         mp = model_parse(r, mb[1], kw)
-        if mp[0] != "ok" or mp[2] != len(mb[1]) or not covers(loosen(norm(mp[1])), loosen(norm(v))):
+        if mp[0] != "ok" or mp[2] != len(mb[1]) or not covers(loosen(norm(mp[1])), loosen(norm(v if domain_v is None else domain_v))):
             ctx.count("outside_symmetric_domain")
             return False
         lb = lib_build(d, v, kw)
@@ -83,7 +86,55 @@ class Runner:
             ctx.violation("roundtrip-leaves-bytes:%s" % top_kind(r), "parse consumed %d of the %d bytes build produced" % (lp[2], len(lb[1])), case)
             return False
         ctx.count("roundtrips_ok")
+        self.canon = mp[1]
         return True
+
+    def stale_roundtrip(self, r, v, other, kw):
+        """the state of a parsed container whose ordinary fields were edited: the members build derives whatever the value
+        holds (Computed, Rebuild) carry values left over from another value of the same construct"""
+        v2, n = stale(r, v, other)
+        if not n:
+            return False
+        self.ctx.count("values_with_stale_derived_members")
+        return self.roundtrip(r, v2, kw, "stale-derived", domain_v=v)
+
+
+def stale(r, v, other):
+    """-> (v with the named Computed / Rebuild members of its Structs overwritten, number of members overwritten)"""
+    k = r[0]
+    if k == "Renamed":
+        return stale(r[2], v, other)
+    if k in ("Struct", "AlignedStruct", "BitStruct") and isinstance(v, dict):
+        out, n = dict(v), 0
+        o = other if isinstance(other, dict) else {}
+        for nm, m in M.members_of(r):
+            base = m
+            while base[0] == "Renamed":
+                nm, base = nm or base[1], base[2]
+            if not nm:
+                continue
+            if base[0] in ("Computed", "Rebuild"):
+                x = o.get(nm)
+                out[nm] = x + 1 if isinstance(x, int) and not isinstance(x, bool) else 77 if x is None else x
+                n += 1
+            elif nm in v:
+                out[nm], c = stale(base, v[nm], o.get(nm))
+                n += c
+        return out, n
+    from ..libmodel import subrecipes
+    subs = subrecipes(r)
+    if len(subs) == 1 or (k in ("Prefixed", "PrefixedArray") and len(subs) == 2):
+        sub = subs[-1]
+        if isinstance(v, dict):
+            return stale(sub, v, other)
+        if isinstance(v, list) and k in ("Array", "PrefixedArray", "GreedyRange", "RepeatUntil"):
+            out, n = [], 0
+            for i, x in enumerate(v):
+                y, c = stale(sub, x, other[i % len(other)] if isinstance(other, list) and other else None)
+                out.append(y)
+                n += c
+            return out, n
+    return v, 0
 
 
 WRAPPERS = ["plain", "struct", "struct-after-byte", "array2", "prefixed", "prefixed-incl", "fixedsized", "padded", "aligned3", "aligned4", "nullterm", "nullterm2",
@@ -176,6 +227,22 @@ def primitives():
     return ps
 
 
+def derived_steering():
+    B, H = ["name", "Byte"], ["name", "Int16ub"]
+    N = ["this", "n"]
+    out = []
+    for comp in (["bin", "+", N, 1], ["bin", "*", N, 2], ["bin", "&", N, 1], ["bin", "-", 4, N]):
+        for dep in (["Bytes", ["this", "c"]], ["Array", ["this", "c"], H], ["Padding", ["this", "c"]], ["PaddedString", ["bin", "+", ["this", "c"], 1], "ascii"],
+                    ["Switch", ["this", "c"], [[0, B], [1, ["name", "Int16ul"]], [2, ["Bytes", 3]]], ["name", "Int32ub"]], ["IfThenElse", ["bin", "==", ["this", "c"], 2], B, ["name", "Int24ub"]],
+                    ["FixedSized", ["bin", "+", ["this", "c"], 2], H], ["Struct", [["e", ["Bytes", ["this", "_", "c"]]]]]):
+            st = ["Struct", [["n", B], ["c", ["Computed", comp]], ["d", dep], ["t", B]]]
+            out += [st, ["Array", 2, st], ["Struct", [["h", B], ["s", st]]], ["Prefixed", B, st, False]]
+    for cnt in (B, ["name", "VarInt"], ["name", "Int16ul"]):
+        st = ["Struct", [["count", ["Rebuild", cnt, ["fn", "len", ["this", "items"]]]], ["items", ["Array", ["this", "count"], H]], ["t", B]]]
+        out += [st, ["Array", 2, st], ["Struct", [["h", B], ["s", st]]]]
+    return out
+
+
 def boundary_values(p, rng):
     from ..gen import int_range
     sc = M.top_scope({})
@@ -225,6 +292,23 @@ def run(ctx):
                 ctx.nontrivial("sweep", shape(r), repr(p)[:60])
             if k % 500 == 0:
                 ctx.sample({"recipe": r, "value": tag(lift(vals[0] if vals else genval(p, rng, M.top_scope({}))))})
+    # ---- (1b) parsed-then-edited values: explicit formats whose computed / rebuilt members steer later lengths, counts and branches
+    for j, r in enumerate(derived_steering()):
+        if not ctx.mine(j):
+            continue
+        prev, ok = None, 0
+        for _ in range(10):
+            try:
+                v = genval(r, rng, M.top_scope({}))
+            except (M.ModelGap, M.MissingKey, M.Unsized, M.Reject):
+                break
+            if R.roundtrip(r, v, {}, "derived-steering"):
+                canon = R.canon
+                if prev is not None:
+                    ok += R.stale_roundtrip(r, v, prev, {})
+                prev = canon
+        if ok:
+            ctx.nontrivial("stale", shape(r))
     # ---- (2) random compositions; the first ones of every worker are drawn directly from the special families of the grammar
     n = ctx.pick(4000, 120000) // ctx.nworkers
     nvals = ctx.pick(8, 16)
@@ -232,8 +316,8 @@ def run(ctx):
     for i in range(n):
         g = Gen(rng, maxdepth=rng.choice([1, 2, 3, 3] if ctx.quick else [2, 3, 3, 4]), fragment="full")
         try:
-            if i < 6 * nfam:
-                r = [g.select_family, lambda: g.lazy_family(2), g.region_family, g.root_family, lambda: g.bitstream(True), lambda: ["Sequence", g.struct(2, True, inseq=True)[1]]][i % 6]()
+            if i < 7 * nfam:
+                r = [g.select_family, lambda: g.lazy_family(2), g.region_family, g.root_family, lambda: g.bitstream(True), lambda: ["Sequence", g.struct(2, True, inseq=True)[1]], g.index_family][i % 7]()
             else:
                 r = g.recipe()
         except (M.ModelGap, M.MissingKey, M.Unsized):
@@ -242,13 +326,20 @@ def run(ctx):
         if "k" in kw and rng.random() < 0.5:
             kw["k"] = rng.choice([0, 1, 3])
         ok = 0
+        prev = None
         for j in range(nvals):
             try:
                 v = genval(r, rng, M.top_scope(dict(kw)))
             except (M.ModelGap, M.MissingKey, M.Unsized, M.Reject):
                 ctx.count("value_generation_gap")
                 break
-            ok += R.roundtrip(r, v, kw, "random")
+            good = R.roundtrip(r, v, kw, "random")
+            ok += good
+            if good:
+                canon = R.canon
+                if prev is not None:
+                    R.stale_roundtrip(r, v, prev, kw)
+                prev = canon
         ks = kinds_in(r)
         if ok and (rdepth(r) >= 2 or ks & DERIVED):
             ctx.nontrivial("rec", shape(r))
